@@ -401,7 +401,8 @@ public:
     FastRational operator%(const FastRational& d) {
         assert(isInteger() && d.isInteger());
         if (wordPartValid() && d.wordPartValid()) {
-            uword w = absVal(num % d.num);  // Largest value is absVal(INT_MAX % INT_MIN) = INT_MAX
+            // Computed in 64 bits: INT_MIN % -1 traps in 32 bits
+            uword w = static_cast<uword>(absVal(static_cast<lword>(num) % static_cast<lword>(d.num)));  // Largest value is absVal(INT_MAX % INT_MIN) = INT_MAX
             return (word)(d.num > 0 ? w : -w); // No overflow since 0 <= w <= INT_MAX
         }
         FastRational r = (*this) / d;
